@@ -2,6 +2,7 @@ package checks
 
 import (
 	"fmt"
+	"strings"
 	"testing"
 	"time"
 
@@ -13,6 +14,7 @@ import (
 	"verifharness/evid"
 	"verifharness/gen"
 	"verifharness/mon"
+	"verifharness/oracle"
 	"verifharness/sim"
 )
 
@@ -138,4 +140,78 @@ func TestC01CreateFaults(t *testing.T) {
 	})
 	on := mon.Of("create-once", "create-eligible", "no-panic")
 	rapid.Check(t, func(rt *rapid.T) { c09Creation(rec, rt, on, true) })
+}
+
+// TestC09RoleChange: the spacing of syncs that touch pods holds across a change of role. The canary replica set
+// creates its pods at T; the canary is validated at once, the ExtendedDaemonSet controller promotes it, and the next
+// request for the same replica set - now active, with outdated pods to replace - arrives within reconcileFrequency.
+func TestC09RoleChange(t *testing.T) {
+	rec := evid.New("TestC09RoleChange", "C09", "complete product {3, 4 nodes} x {reconcileFrequency 10s, 30s} x {canary replicas 1, 2} x {second request 1s, 3s, frequency-2s after the canary's creating sync} x {maxUnavailable 1, 100%}: canary pods created, canary validated by annotation, EDS reconcile promotes, then the request for the promoted set; rate monitor with history (two syncs of one replica set that create or delete pods are at least reconcileFrequency - 1s apart when the first one recorded itself); non-trivial = every case; distinct by configuration")
+	failed := false
+	ff := &firstFail{t: t, failed: &failed}
+	for _, nodes := range []int{3, 4} {
+		for _, freq := range []time.Duration{10 * time.Second, 30 * time.Second} {
+			for _, replicas := range []string{"1", "2"} {
+				for _, gap := range []time.Duration{time.Second, 3 * time.Second, freq - 2*time.Second} {
+					for _, maxU := range []string{"1", "100%"} {
+						desc := fmt.Sprintf("nodes=%d reconcileFrequency=%s canaryReplicas=%s secondRequestAfter=%s maxUnavailable=%s", nodes, freq, replicas, gap, maxU)
+						c := sim.New(sim.Options{})
+						for i := 0; i < nodes; i++ {
+							c.AddNode(fmt.Sprintf("n%02d", i), map[string]string{"zone": "a"}, nil)
+						}
+						st := edsv1.ExtendedDaemonSetSpecStrategy{ReconcileFrequency: &metav1.Duration{Duration: freq}}
+						st.RollingUpdate.MaxUnavailable = gen.ParseIntOrPercent(maxU)
+						st.Canary = &edsv1.ExtendedDaemonSetSpecStrategyCanary{Replicas: gen.ParseIntOrPercent(replicas), ValidationMode: edsv1.ExtendedDaemonSetSpecStrategyCanaryValidationModeManual}
+						p := prepare(c, "ns1", "foo", st, nil, "A")
+						c.Advance(time.Hour)
+						for i := 0; i < nodes; i++ {
+							p.addPod(fmt.Sprintf("n%02d", i), 'A', PSAvailable, 30*time.Minute)
+						}
+						h := mon.NewHistory()
+						on := mon.Of("rate", "no-panic")
+						var vs []mon.V
+						step := func(actor, name string, adv time.Duration) *sim.Record {
+							c.Advance(adv)
+							r := c.Reconcile(actor, "ns1", name)
+							vs = append(vs, mon.Check(r, on, h)...)
+							return r
+						}
+						_ = c.EditEDS("ns1", "foo", func(x *edsv1.ExtendedDaemonSet) { x.Spec.Template = gen.LetterTemplate('B') })
+						step(sim.ActorEDS, "foo", time.Second) // creates the replica set of B
+						step(sim.ActorEDS, "foo", time.Second) // records the canary and its nodes
+						e := c.EDS("ns1", "foo")
+						if e.Status.Canary == nil {
+							ff.Fatalf("harness: no canary recorded (%s)", desc)
+							return
+						}
+						crs := e.Status.Canary.ReplicaSet
+						// the canary set deletes the old pods of its nodes, the kubelet removes them, the set creates its own
+						step(sim.ActorERS, crs, time.Second)
+						c.KubeletProgress()
+						step(sim.ActorERS, crs, freq+time.Second)
+						c.KubeletProgress()
+						_ = c.SetEDSAnnotation("ns1", "foo", oracle.AnnCanaryValid, crs)
+						step(sim.ActorEDS, "foo", gap/2) // promotes
+						r := step(sim.ActorERS, crs, gap-gap/2)
+						writes := 0
+						for _, cl := range r.Calls {
+							if cl.Kind == "Pod" && cl.Write {
+								writes++
+							}
+						}
+						rec.Case(true, evid.FP(desc), fmt.Sprintf("second-request-writes-pods=%v", writes > 0))
+						rec.Steps(6)
+						if rec.WantSample() {
+							rec.Sample(desc)
+						}
+						settle(ff, rec, vs, map[string]interface{}{"config": desc, "trace": c.Trace}, len(c.Trace), "config: "+desc+"\n"+strings.Join(c.Trace, "\n"))
+					}
+				}
+			}
+		}
+	}
+	rec.Exhaustive(true)
+	if !failed {
+		rec.Done()
+	}
 }
